@@ -688,6 +688,7 @@ void BootstrapRandomGroupsCV(MODELINPUT *input,
     }
 
     for(i = 0; i < sum_ypredictions->row; i++){
+      VERIF_CV("boot_counter", i, (size_t)predictcounter->data[i], iterations, NULL);
       for(j = 0; j < sum_ypredictions->col; j++){
         sum_ypredictions->data[i][j] /= (double)predictcounter->data[i];
 
@@ -909,9 +910,11 @@ void LeaveOneOut(MODELINPUT *input,
                   /*setMatrixValue(arg[th].submy, l, k, getMatrixValue(my, j, k));*/
                   loo_arg[th].y_train->data[l][k] = my->data[j][k];
                 }
+                VERIF_CV("loo_train", model+th, j, l, NULL);
                 l++;
               }
               else{
+                VERIF_CV("loo_test", model+th, j, 0, NULL);
                 for(k = 0; k < mx->col; k++){
                   loo_arg[th].x_test->data[0][k] = mx->data[j][k];
                 }
